@@ -71,7 +71,108 @@ let bar_family (dir : string) =
     | _ -> failwith ("bad line: " ^ line)) lines;
   close_out oc
 
+
+(* ---------------- family "fill" ---------------- *)
+let zlist (s : string) : Mpb_model.z list =
+  if s = "-" || s = "" then [] else List.map cz (String.split_on_char ',' s)
+
+let runs_of (t : seg list) : string =
+  (* class:total-width runs, zero-width dropped, adjacent classes merged *)
+  let rec go acc = function
+    | [] -> List.rev acc
+    | sg :: rest ->
+        let wd = zi sg.cnt * zi sg.w in
+        if wd <= 0 then go acc rest else
+        let c = zi sg.cls in
+        (match acc with
+         | (c', w') :: tl when c' = c -> go ((c, w' + wd) :: tl) rest
+         | _ -> go ((c, wd) :: acc) rest) in
+  String.concat "" (List.map (fun (c, w) -> Printf.sprintf " %d:%d" c w) (go [] t))
+
+let obs_line k i (t : seg list) =
+  Printf.sprintf "%d %d T%s | W %s U 1" k i (runs_of t) (zs (segs_width t))
+
+let style_of = function
+  | [l; r; f; rf; p; toc; rv; tips] ->
+      { lb = cz l; rb = cz r; fw = cz f; rw = cz rf; pw = cz p; tips = zlist tips;
+        tip_on_complete = sb toc; reverse = sb rv }
+  | _ -> failwith "bad style"
+
+let text_of idx (ws : string) : seg list =
+  List.map (fun w -> { cls = czi (1000 + idx); cnt = czi 1; w = w }) (zlist ws)
+
+let dec_of idx = function
+  | [_side; w; ex; ri; wraps; t; cm; am] ->
+      let base = DBase ({ wcW = cz w; extra = sb ex; indent_right = sb ri; wsync = false }, text_of idx t) in
+      let d = ref base in
+      if wraps <> "-" then
+        for i = String.length wraps - 1 downto 0 do
+          d := (match wraps.[i] with
+            | 'C' -> DOnComplete (!d, text_of idx cm)
+            | 'A' -> DOnAbort (!d, text_of idx am)
+            | 'M' -> DMeta !d
+            | 'c' -> DOnCompleteMeta !d
+            | 'a' -> DOnAbortMeta !d
+            | _ -> failwith "bad wrapper")
+        done;
+      !d
+  | _ -> failwith "bad decorator line"
+
+let fill_family (dir : string) =
+  let lines = read_lines (Filename.concat dir "cases.txt") in
+  let oc = open_out (Filename.concat dir "model.txt") in
+  let k = ref 0 and i = ref 0 in
+  let kind = ref ' ' in
+  let style = ref None and spin = ref None in
+  let count = ref Z0 in
+  let dead = ref false in
+  let dhdr = ref [] and pre = ref [] and app = ref [] and nd = ref 0 in
+  List.iter (fun line ->
+    match tokens line with
+    | "F" :: kk :: rest -> k := int_of_string kk; i := 0; kind := 'F'; style := Some (style_of rest);
+        count := Z0; dead := false
+    | ["S"; kk; pos; fr] -> k := int_of_string kk; i := 0; kind := 'S';
+        spin := Some { frames = zlist fr; position = cz pos }; count := Z0
+    | "D" :: kk :: rest -> k := int_of_string kk; i := 0; kind := 'D'; dhdr := rest;
+        pre := []; app := []; nd := 0; count := Z0; dead := false
+    | "d" :: rest ->
+        let d = dec_of !nd rest in
+        (if List.hd rest = "0" then pre := !pre @ [d] else app := !app @ [d]); incr nd
+    | ["c"; a; r; t; c; rf; comp] when !kind = 'F' ->
+        if not !dead then begin
+          let st = match !style with Some s -> s | None -> failwith "no style" in
+          let s = { avail = cz a; req = cz r; s_total = cz t; s_current = cz c; s_refill = cz rf;
+                    s_completed = sb comp; s_aborted = false } in
+          (match fill_bar st !count s with
+           | None -> Printf.fprintf oc "%d %d HANG\n" !k !i; dead := true
+           | Some (t, c') -> count := c'; Printf.fprintf oc "%s\n" (obs_line !k !i t));
+          incr i end
+    | ["c"; a; r] when !kind = 'S' ->
+        let st = match !spin with Some s -> s | None -> failwith "no spin" in
+        let s = { avail = cz a; req = cz r; s_total = Z0; s_current = Z0; s_refill = Z0;
+                  s_completed = false; s_aborted = false } in
+        let (t, c') = fill_spinner st !count s in
+        count := c'; Printf.fprintf oc "%s\n" (obs_line !k !i t); incr i
+    | ["f"; t; c; rf; comp; ab] ->
+        if not !dead then begin
+          (match !dhdr with
+           | tw :: bw :: trim :: fk :: rest ->
+               let fkv = (match fk with
+                 | "B" -> FBar (style_of rest)
+                 | "S" -> (match rest with [pos; fw] -> FSpin { frames = [cz fw]; position = cz pos } | _ -> failwith "bad S")
+                 | _ -> FNop) in
+               let reqw = if int_of_string bw > 0 then cz bw else cz tw in
+               (match draw_row fkv !count (cz tw) reqw (sb trim) !pre !app (cz t) (cz c) (cz rf) (sb comp) (sb ab) with
+                | None -> Printf.fprintf oc "%d %d HANG\n" !k !i; dead := true
+                | Some (row, c') -> count := c'; Printf.fprintf oc "%s\n" (obs_line !k !i row))
+           | _ -> failwith "bad D header");
+          incr i end
+    | ["end"] | [] -> ()
+    | _ -> failwith ("bad line: " ^ line)) lines;
+  close_out oc
+
 let () =
   match Array.to_list Sys.argv with
   | [_; "bar"; dir] -> bar_family dir
+  | [_; "fill"; dir] -> fill_family dir
   | _ -> prerr_endline "usage: mpbmodel <family> <dir>"; exit 2
